@@ -24,7 +24,7 @@ def _post(c):
 
 
 CFG = {
-    "disabled": True,
+    "disabled": False,
     "props": "Props/C06.v",
     "corr": ["Corr/DKGExecCorr.v"],
     "engines": [("dkgrun", [])],
